@@ -2,6 +2,10 @@
 # Regenerates MANIFEST.json from the table below (kept in one place so the manifest stays valid).
 import json, subprocess
 CLAIMED = {
+ "C14": dict(
+   text="Contracts on the real advanceFrame against RFC 6455 5.2-5.5 rule predicates over the ghost input stream: an accepted frame has legal RSV bits and a known opcode, control frames are final and declare at most 125 bytes, data/continuation sequencing follows the message-in-progress flag, the mask bit matches the role, the remaining-bytes counter equals the declared length and is never negative (64-bit lengths with the top bit set are refused), the message length accumulates over fragments without overflow and never passes a configured read limit; every protocol error sends Close 1002 (call-site assertion on WriteControl) and returns an error; the received-close-code table is checked against RFC 7.4.1 for all codes.",
+   note="ASSUMED: user-supplied ping/pong/close handlers do not modify reader state; writes through a slice of the mask-key array field are not tracked; maskBytes (unsafe) and WriteControl are trusted contracts here. Sticky errors in NextReader and the no-short-message-on-cut clause of messageReader.Read are not under contract. Trusted: bufio.Reader Peek/Discard stream contracts, govc, go/ssa, solvers.",
+   design="7/C14"),
  "C18": dict(
    text="The connection-id counter is declared shared/atomic: every plain read or write of it is a failed obligation (the repaired code goes through sync/atomic); WithContext stores exactly the value returned by the atomic increment (so ids are pairwise distinct); AliasContext returns a context carrying exactly its source's id; every logging entry point (Println/Printf/doPrintln/doPrintf) hands exactly one line to the underlying log.Logger on every path (ghost emission counter), for nil contexts, id-carrying objects and context.Context values.",
    note="The verifier is sequential: uniqueness under concurrency follows from atomicity of the increment (trusted sync/atomic) plus the proved 'stored id = increment result'; whole-line atomicity is log.Logger's (trusted). The text of the prefix (fmt.Sprintf) and Switch/Close racing with loggers are not decided. Trusted: context.WithValue/Value contract, govc, go/ssa, solvers.",
